@@ -253,17 +253,19 @@ theorem permRel_all_eq {α : Type} {R : α → α → Prop} (f : α → Bool) (h
   obtain ⟨a, b, h1, h2, h3⟩ := p
   rw [namesDisplayable_all f h1, All2.all_eq f h h2, namesDisplayable_all f h3]
 
-theorem displayable_congr {m m' : Mappings} (h : ContentEq m m') : displayable m = displayable m' := by
-  obtain ⟨_, _, h3⟩ := h
-  unfold displayable
+theorem writeOk_congr {m m' : Mappings} (h : ContentEq m m') : writeOk m = writeOk m' := by
+  obtain ⟨h1, _, h3⟩ := h
+  unfold writeOk
+  rw [h1]
+  congr 1
   apply permRel_all_eq _ _ h3
   rintro ⟨k, c⟩ ⟨k', c'⟩ ⟨_, c1, _, c3, c4⟩
   simp only at c1 c3 c4 ⊢
   rw [c1, namesDisplayable_all _ c3]
   congr 1
   apply permRel_all_eq _ _ c4
-  rintro ⟨k, m⟩ ⟨k', m'⟩ ⟨_, _, m2, _, m4⟩
-  simp only at m2 m4 ⊢
-  rw [m2, namesDisplayable_all _ m4]
+  rintro ⟨k, m⟩ ⟨k', m'⟩ ⟨_, m1, m2, _, m4⟩
+  simp only at m1 m2 m4 ⊢
+  rw [m1, m2, namesDisplayable_all _ m4]
 
 end Tiny
